@@ -68,6 +68,9 @@ def core_definitions():
     # over-aligned field introduced late: the record alignment is set by a later variant
     ds.append(("late_overalign", ["clone"], [A("a", "P1"), A("b", "Odd3"), C(), A("o", "Over16", True), C(),
                                              R("o"), A("w", "P16"), C("append")]))
+    # a datum removed and a new datum with the SAME name added in one step (twice)
+    ds.append(("same_name_step", ["clone", "serde"], [A("payload", "Tracked"), A("k", "P4"), C(), R("payload"), A("payload", "Str"), C(),
+                                                      R("payload"), A("payload", "TrackedOdd"), R("k"), C("basic")]))
     # a zero-size datum is the most-aligned field of the definition (alignment marker)
     ds.append(("zst_overalign", ["clone"], [A("a", "P4"), A("b", "P2"), A("c", "Odd3"), C(), R("a"), A("marker", "ZstA8"), C(),
                                             A("t", "TrackedOdd"), C("basic")]))
@@ -105,9 +108,11 @@ def random_definition(rng, idx):
             nrem = min(nrem, 1)
         if v > 0 and nadd == 0 and nrem == 0:
             nadd = 1
+        freed = []
         for name in rng.sample(live, nrem):
             calls.append(R(name))
             live.remove(name)
+            freed.append(name)
         for _ in range(nadd):
             n += 1
             r = rng.random()
@@ -121,6 +126,8 @@ def random_definition(rng, idx):
                 key = "ZstDrop"
             un = key in COPY_KEYS and rng.random() < 0.4
             name = "f%d" % n
+            if freed and rng.random() < 0.25:
+                name = freed.pop()      # the name of a datum removed in this very step is taken again
             calls.append(A(name, key, un))
             live.append(name)
             if rng.random() < 0.06:
